@@ -34,7 +34,7 @@ pub struct Cfg {
     pub sampling: u32,
 }
 
-const SIZES: &[(usize, usize)] = &[(16, 8), (8, 8), (16, 16), (17, 9), (33, 8), (32, 16), (1, 1), (8, 24)];
+const SIZES: &[(usize, usize)] = &[(16, 8), (8, 8), (16, 16), (17, 9), (33, 8), (32, 16), (1, 1), (8, 24), (264, 16)];
 const N_PATTERNS: u32 = 9 + 63;
 
 pub fn cfg_from(t: &mut Tape) -> Cfg {
